@@ -176,6 +176,11 @@ func (c *Ctl) Canon(p string) string {
 	if rel, err := filepath.Rel(c.Root, p); err == nil && !strings.HasPrefix(rel, "..") {
 		p = rel
 	}
+	return CanonName(p)
+}
+
+// CanonName normalises random temp-name suffixes (no path resolution).
+func CanonName(p string) string {
 	p = tmpRes[0].ReplaceAllString(p, ".tmp-*")
 	p = tmpRes[2].ReplaceAllString(p, "pdfcpu-reservation-*")
 	p = tmpRes[1].ReplaceAllString(p, ".pdfcpu-$1-*")
